@@ -43,6 +43,7 @@ func genCase(t *rapid.T) Case {
 	if c.Pos != "startup" && c.Pos != "password" && rapid.IntRange(0, 5).Draw(t, "tls") == 0 {
 		c.TLS = true
 	}
+	c.SSLFirst = !c.TLS && rapid.IntRange(0, 3).Draw(t, "ssl-refused-first") == 0
 	switch rapid.IntRange(0, 3).Draw(t, "segs") {
 	case 0:
 		c.Segs = []int{L}
